@@ -548,14 +548,26 @@ fn vp_native_settings_flow_body() {
     // holds whatever bytes it contains (obs-text, UTF-8), wherever it was set; the default appears only where nothing was given
     {
         let values: [&[u8]; 5] = [b"plain/1.0", "M\u{fc}ller-Crawler/1.0".as_bytes(), b"caf\xe9-client/2.0", b"\xff", b"a b\tc"];
-        for name in ["User-Agent", "Accept", "X-A"] { for sv in 0..=values.len() { for rv in 0..=values.len() { for via_append in [false, true] {
+        for name in ["User-Agent", "Accept", "X-A", "Content-Type", "Content-Type/body"] { for sv in 0..=values.len() { for rv in 0..=values.len() { for via_append in [false, true] {
+            // (Content-Type: the request carries a text body, given through .text(..) or as a body::Text value, before or after
+            // the field is set - a type the caller names is the type that is sent)
+            let (name, with_body) = match name { "Content-Type" => ("Content-Type", 1), "Content-Type/body" => ("Content-Type", 2), n => (n, 0) };
+            if with_body > 0 && sv == values.len() && rv == values.len() { continue; }
             let mut sess = crate::Session::new(); sess.proxy_settings(crate::ProxySettings::builder().build());
             let hv = |b: &[u8]| http::HeaderValue::from_bytes(b).unwrap();
             if sv < values.len() { if via_append { sess.header_append(name, hv(values[sv])); } else { sess.header(name, hv(values[sv])); } }
-            let mut rb = sess.get("http://h.test/");
-            if rv < values.len() { rb = rb.header(name, hv(values[rv])); }
-            let p = rb.prepare();
-            let got: Vec<Vec<u8>> = p.headers().get_all(name).iter().map(|v| v.as_bytes().to_vec()).collect();
+            let mut rb = sess.post("http://h.test/");
+            let body_first = (sv + rv) % 2 == 0;
+            let got: Vec<Vec<u8>> = if with_body == 0 {
+                if rv < values.len() { rb = rb.header(name, hv(values[rv])); }
+                rb.prepare().headers().get_all(name).iter().map(|v| v.as_bytes().to_vec()).collect()
+            } else if with_body == 1 {
+                if body_first { let mut b = rb.text("body"); if rv < values.len() { b = b.header(name, hv(values[rv])); } b.prepare().headers().get_all(name).iter().map(|v| v.as_bytes().to_vec()).collect() }
+                else { if rv < values.len() { rb = rb.header(name, hv(values[rv])); } rb.text("body").prepare().headers().get_all(name).iter().map(|v| v.as_bytes().to_vec()).collect() }
+            } else {
+                if body_first { let mut b = rb.body(body::Text("body")); if rv < values.len() { b = b.header(name, hv(values[rv])); } b.prepare().headers().get_all(name).iter().map(|v| v.as_bytes().to_vec()).collect() }
+                else { if rv < values.len() { rb = rb.header(name, hv(values[rv])); } rb.body(body::Text("body")).prepare().headers().get_all(name).iter().map(|v| v.as_bytes().to_vec()).collect() }
+            };
             let want: Vec<Vec<u8>> = if rv < values.len() { vec![values[rv].to_vec()] } else if sv < values.len() { vec![values[sv].to_vec()] } else { vec![] };
             cases += 1; crate::verif_native_watchdog::progress();
             if want.is_empty() { match name { "X-A" => assert!(got.is_empty()), "Accept" => assert_eq!(got, vec![b"*/*".to_vec()]), _ => assert_eq!(got.len(), 1, "one default User-Agent") } }
